@@ -140,8 +140,12 @@ def run(ctx: Ctx):
     ctx.assumptions = ['canonicity is claimed for the 35 single-character signifiers that never combine (gen/notes.py)',
                        'text cells never contain the separator characters @ and · (see C03 finding)']
     n = 260 if ctx.tier == 'quick' else 1500
-    for cs in cases(ctx, 'c01', n):
-        one(ctx, cs)
+    for k_, cs in enumerate(cases(ctx, 'c01', n)):
+        if k_ % 6 == 5:
+            # invisible barlines (=-, =3-||, =-;): whatever the export does with them (kernpy writes a null), the result is a fixed point
+            one(ctx, cs, None, p_hidden_bar=0.3)
+        else:
+            one(ctx, cs)
     if ctx.tier == 'thorough':
         for cs in cases(ctx, 'c01long', 2):
             one(ctx, cs, 'default', long_rows=1500, measures=(20, 40), p_split=0.03)
